@@ -261,3 +261,31 @@ Definition genuine_mismatch (E : sym -> sym -> Q) (e : expr) : Prop :=
 Definition acyclic (defs : defmap) : Prop :=
   exists rank : sym -> nat,
     forall n d m, d_lookup defs n = Some d -> In m (keys d) -> d_lookup defs m <> None -> (rank m < rank n)%nat.
+
+(** * Well-formedness of definitions and histories; reference semantics of a history *)
+
+(** definitions form a dict: unique names; every definition is itself a dict (unique symbols) *)
+Definition wf_defs (defs : defmap) : Prop :=
+  NoDup (map fst defs) /\ forall n d, In (n, d) defs -> NoDup (keys d).
+
+Definition wf_history (h : list event) : Prop :=
+  forall n u, In (Define n u) h -> NoDup (keys u).
+
+(** what a name stands for after a history: its latest definition since the latest clear *)
+Fixpoint last_def (h : list event) (n : sym) (cur : option umap) : option umap :=
+  match h with
+  | [] => cur
+  | Clear :: r => last_def r n None
+  | Define m u :: r => last_def r n (if Pos.eqb n m then Some u else cur)
+  end.
+
+(** the expansion computed by unfolding the definitions [f] times (it is THE expansion of
+    acyclic definitions once [f] exceeds their depth, see C18_expansion_exists) *)
+Fixpoint Efuel (defs : defmap) (f : nat) (s k : sym) : Q :=
+  match f with
+  | O => 0
+  | S f' => match d_lookup defs s with
+            | None => delta s k
+            | Some d => xdim (Efuel defs f') d k
+            end
+  end.
